@@ -606,6 +606,11 @@ def random_election(rnd, district=False):
                     )
                 )
                 i += 1
+    # the client's minimum-units gate of the gaussian estimator needs 7 reporting units; stay clear of it
+    short = 9 - sum(1 for r in rows if r["_rep"])
+    if short > 0:
+        for r in rnd.sample([r for r in rows if not r["_rep"]], short):
+            r["_rep"] = True
     pre = pd.DataFrame(rows)
     n = len(pre)
     swing = nprng.normal(0.05, 0.1, n)
